@@ -290,6 +290,7 @@ def run(c):
                          "only %d load histories in which the order of the merged rules is observable (need >= 3)" % nsens)
         ops_seen = set()
         other_pkg_custom = []
+        decl_only = []
         for cs in cases:
             c.count()
             inp = {"case": cs["name"], "kind": cs["kind"], "seed": c.seed, "rules_path": cs.get("rules_path"),
@@ -333,8 +334,17 @@ def run(c):
                 if results:
                     c.fail("corr", "no phase-B result for a literal that type-checks", input=inp)
                 continue
+            from_rules = cs["kind"] in ("fixture", "generated")
+            if from_rules:
+                c.coverage["converted_files_checked_for_zero_valued_list_elements"] = c.coverage.get("converted_files_checked_for_zero_valued_list_elements", 0) + 1
+                if cs.get("zero_elem"):
+                    # the printer writes nothing for a zero value, list elements included: the round-trip theorem's domain
+                    # leaves such values out BECAUSE no rules file converts to one -- that is a fact to be checked
+                    c.fail("oracle", "the IR a rules file converts to has a zero-valued list element (irprint writes nothing for it: the precompiled form "
+                           "is another value)", input=inp, observed={"first_zero_element": cs["zero_elem"]},
+                           expected="no zero-valued element in any list of the converted IR")
             in_domain = m[2] if m is not None else not outside
-            if not res["deep_equal_norm"] and in_domain and not outside:
+            if not res["deep_equal_norm"] and (in_domain or from_rules) and not outside:
                 c.fail("oracle", "evaluating the printed literal does not give back the IR value (reflect.DeepEqual)",
                        input=inp, observed=(res.get("diff") or "")[:1500], expected="equal values")
             if cs.get("rules_path"):
@@ -361,6 +371,10 @@ def run(c):
                     c.coverage["reports_compared"] += res["nreports"]
                     # rules files that declare another package than the one Load checks them under, with reports that
                     # went through custom functions (Filter(fn) / Do(fn)) on both paths
+                    if cs.get("func_decls") == 0 and res.get("ndecl"):
+                        decl_only.append((cs["name"], res["ndecl"]))
+                        c.coverage["reports_naming_own_declarations_of_files_without_functions"] = \
+                            c.coverage.get("reports_naming_own_declarations_of_files_without_functions", 0) + res["ndecl"]
                     mpk = re.search(r"^package (\w+)", read_text(cs["rules_path"]) or "", re.M)
                     if mpk and mpk.group(1) != "gorules" and res.get("ncustom"):
                         other_pkg_custom.append((cs["name"], mpk.group(1), res["ncustom"]))
@@ -387,6 +401,18 @@ def run(c):
         if results:
             c.obligation("generator:package-clauses:" + tag, len(other_pkg_custom) >= 3,
                          "rules files declaring a package other than gorules whose custom-function rules reported through Load and LoadFromIR: %r (need >= 3)" % (other_pkg_custom,))
+        if results:
+            c.obligation("generator:declarations-without-functions:" + tag, len(decl_only) >= 3,
+                         "rules files whose custom declarations hold types / constants / variables and NO function, with rules naming those "
+                         "declarations that reported through Load and LoadFromIR: %r (need >= 3)" % (decl_only,))
+            tagsets = set()
+            for cs in cases:
+                if cs["kind"] == "generated" and cs.get("rules_path"):
+                    for mm in re.finditer(r"^//doc:tags(.*)$", read_text(cs["rules_path"]) or "", re.M):
+                        tagsets.add(mm.group(1))
+            c.coverage["doc_tags_spellings"] = max(c.coverage.get("doc_tags_spellings", 0), len(tagsets))
+            c.obligation("generator:doc-pragmas:" + tag, len(tagsets) >= 8 and "" in tagsets and any("  " in t.strip() for t in tagsets),
+                         "%d spellings of the //doc:tags line in the generated rules files (need >= 8, an empty one and one with runs of spaces between tags)" % len(tagsets))
         c.coverage.setdefault("cases", 0)
         c.coverage["cases"] += len(cases)
         c.coverage.setdefault("model_vs_impl_cases", 0)
